@@ -166,11 +166,7 @@ func (commander *Commander) exec(ctx context.Context, parameters Parameters, scr
 				WithReference(script.Reference)
 
 			verifhook.Yield(ctx, "txid", "id", tx.ID, "dry", parameters.DryRun)
-			log := logComputer(tx, result.AccountMetadata)
-			if parameters.IdempotencyKey != "" {
-				log = log.WithIdempotencyKey(parameters.IdempotencyKey)
-			}
-			return log
+			return logComputer(tx, result.AccountMetadata)
 		})
 	})
 }
